@@ -92,9 +92,12 @@ def neoRel2 (a b : NodeRef) : NeoRel := ⟨a, "Relationship", b⟩
 /-- `Relationship(a, "T", b)` -/
 def neoRel3 (a : NodeRef) (t : String) (b : NodeRef) : NeoRel := ⟨a, t, b⟩
 
+/-- `frozenset(l)` as a duplicate-free list: an element that is already there is dropped -/
+def toSet {α} [BEq α] (l : List α) : List α := l.foldl (fun acc x => if acc.contains x then acc else acc ++ [x]) []
+
 /-- `Subgraph(nodes, relationships)` -/
 def neoSubgraph (nodes : List NodeRef) (rels : List NeoRel) : NeoSubgraph :=
-  { nodes := (nodes ++ rels.flatMap (fun r => [r.start, r.stop])).eraseDups, rels := rels.eraseDups }
+  { nodes := toSet (nodes ++ rels.flatMap (fun r => [r.start, r.stop])), rels := toSet rels }
 
 /-- `g.delete_all()` -/
 def W.deleteAll (w : W) (_g : NeoGraph) : W := { w with db := {} }
